@@ -344,6 +344,19 @@ Print Assumptions C17_cancel_blob_push.
 
 (* --- totality of the backoff (F7) ------------------------------------------------- *)
 
+(* the arithmetic and the Retry-After constants of ExponentialBackoff as translated from the
+   source (the Generated.GC17.generated_backoff definitions): temp = backoff x factor^attempt, base interval
+   temp x (1-jitter), jitter bound 2 x jitter x temp; Retry-After on 429, positive, in seconds *)
+Theorem C17_backoff_arith_closed_form :
+  forall e attempt,
+    exp_temp e attempt = (inject_Z (e_base e) * Qpower (e_factor e) attempt)%Q /\
+    exp_a e attempt = (exp_temp e attempt * (1 - e_jitter e))%Q /\
+    exp_n e attempt = ((2 # 1) * e_jitter e * exp_temp e attempt)%Q /\
+    generated_backoff_retry_after_status = 429 /\ generated_backoff_retry_after_unit = 1000000000 /\
+    (forall ra, generated_backoff_retry_after_ok ra = (ra >? 0)).
+Proof. exact exp_arith_eq. Qed.
+Print Assumptions C17_backoff_arith_closed_form.
+
 (* the source as it is now (guard flag re-read from policy.go): ExponentialBackoff
    returns for every parameter choice, attempt and answer *)
 Theorem C17_backoff_total :
